@@ -269,13 +269,13 @@ def reverse_jobs(rnd, n, schedulers=('default', 'legacy'), **job_kw):
 
 
 def catalogue_model_runs(d, tier, liveness_for=('diamond_j-1_ok', 'nested_join_inner_uncreated_err', 'diamond_j1_ok'),
-                         ops=0, dups=0, kinds=('pause', 'resume', 'stop'), only=None, tag='', schedulers=None):
+                         ops=0, dups=0, kinds=('pause', 'resume', 'stop'), only=None, tag='', schedulers=None, shapes=None):
     """Exhaustive TLC runs of MistralEngine on catalogue shapes (all delivery orders of messages,
     post-commit operations and job sub-steps; with `ops` operator commands of the given kinds issued at any
     point and `dups` redeliveries of any delivered message), liveness (Terminates under weak fairness) on a few."""
     import concurrent.futures as cf
     from harness import engmodel
-    shapes = [x for x in gen.catalogue() if only is None or x[0] in only]
+    shapes = [x for x in (shapes or gen.catalogue()) if only is None or x[0] in only]
     out = []
 
     # both scheduler implementations without budgets (and in the thorough tier); the default scheduler under budgets
@@ -298,13 +298,13 @@ def catalogue_model_runs(d, tier, liveness_for=('diamond_j-1_ok', 'nested_join_i
     return out
 
 
-def model_jobs(d, tier, sims=(), probes=()):
+def model_jobs(d, tier, sims=(), probes=(), shapes=None):
     """Spec -> code: behaviours of MistralEngine.tla to be stepped through the real engine (harness/modelreplay.py).
     sims:   (shape names | None = all, behaviours per shape, ops, dups, kinds) - TLC simulation
     probes: (label, shape, TLA+ state formula, ops, dups, kinds) - TLC is asked for a behaviour reaching the formula"""
     import concurrent.futures as cf
     from harness import modelreplay as mr
-    shapes = gen.catalogue()
+    shapes = shapes or gen.catalogue()
     byname = dict(shapes)
     jobs, info = [], {'simulated': 0, 'probes': {}}
 
